@@ -226,8 +226,9 @@ def run_gcase(case, seed=0, replay_dir=None, known=None):
                 dis, side = qdom.diff_terms(a, b)
                 if not (Q.lift(a).iszero() and Q.lift(b).iszero()):
                     nontrivial += 1  # a compared coefficient that is not identically zero on both sides (vacuity guard)
+                ob["nontrivial"] = not (Q.lift(a).isconst() and Q.lift(b).isconst())
                 if not dis:
-                    ob.update(status="unsat", seconds=0.0, how="syntactic")
+                    ob.update(status="unsat", seconds=0.0, how="identical normal forms")
                     res["obligations"].append(ob)
                     continue
                 asserts = pre + side + [z3.Or(*dis)]
